@@ -19,8 +19,13 @@ its own canonical form (lexicographic minimum over node permutations), counts
 are positive integers, each pattern is listed once, larger hyperedges are
 ignored.  No exhaustive count is demanded (the statement makes none).
 
+Table (``order34_table``): every connected labelled pattern on 3 / 4 positions (12 / 1990)
+is realised once as its own node-disjoint block; the census must be the Counter of the
+blocks' classes (finite case list, enumerated completely by the quick tier).
+
 The null-model part of both functions is random and outside the property:
-``runs_config_model=0`` always.
+``runs_config_model=0``, except in ``observed_with_null_model`` where one sample is drawn
+(RNGs seeded from the case) and only 'observed' is read.
 """
 
 import itertools
@@ -30,19 +35,27 @@ from collections import Counter
 
 from hypothesis import strategies as st
 
-from ..engine import Clause, require
+from ..engine import Clause, Violation, require
 from ..common import with_history  # noqa: E402
 
 ASSUMPTIONS = [
-    "runs_config_model=0 only: the configuration-model samples and norm_delta are random and "
-    "outside the property",
+    "the configuration-model samples and norm_delta are random and outside the property: "
+    "runs_config_model=0, except clause observed_with_null_model (runs_config_model=1, random "
+    "and numpy.random seeded from the case, unweighted hypergraphs with at least two hyperedges "
+    "of sizes 2..order and none of another size) where only the 'observed' entry is compared, "
+    "with the exhaustive census",
+    "order34_table: a hyperedge never leaves its block of `order` nodes, so a connected "
+    "`order`-subset is exactly one block and the expected census is the Counter of the blocks' "
+    "own canonical forms",
     "oracle = brute force over all order-subsets of the nodes with canonical form = minimum over "
     "all node permutations (own code, hgxverif/props/c11.py); class table = own enumeration of "
     "all 2^4 / 2^11 candidate patterns (6 / 171 connected classes)",
     "integer labels only (the quantifier says so; the ESU pass compares labels with >)",
     "hyperedges list distinct nodes; sizes 1..6; weights (when the hypergraph is weighted) are "
     "irrelevant to the census and never compared",
-    "directed: disjoint non-empty source and target, total size 2..6; no exhaustive directed "
+    "directed: disjoint non-empty source and target, total size 2..6, weighted or not (weights "
+    "0.5..7 are no part of the isomorphism type), extra nodes in no hyperedge allowed; "
+    "no exhaustive directed "
     "count is claimed by the statement, so none is checked; the only count check is an upper "
     "bound (a reported pattern must be the class of the induced pattern of at least `count` node "
     "subsets), node subsets the census does not visit are never an error",
@@ -206,8 +219,10 @@ def _fmt(c):
     return "class %s" % (list(c),)
 
 
-def _compare_census(obs, exp, what):
-    for c in sorted(set(obs) | set(exp)):
+def _compare_census(obs, exp, what, order=None):
+    """every class the census reports or the enumeration finds -- and, given the order, every
+    class of connected patterns (each must be reported, with 0 when it does not occur)"""
+    for c in sorted(set(obs) | set(exp) | (classes(order) if order else set())):
         o, e = obs.get(c), exp.get(c, 0)
         require(o == e,
                 lambda: "%s: %s expected count %d (exhaustive enumeration), reported %s"
@@ -216,10 +231,16 @@ def _compare_census(obs, exp, what):
 
 def _classify(ctx, exp, order, case):
     nz = len([c for c, n in exp.items() if n])
+    if not case["edges"]:
+        ctx.label("no_hyperedges")
     ctx.label("order=%d" % order,
               "classes_nonzero=%s" % (nz if nz < 6 else "6+"),
               "n_edges=%s" % ("<5" if len(case["edges"]) < 5 else "5-9" if len(case["edges"]) < 10
                               else "10+"))
+    if case.get("profile") == "dense":
+        ctx.label("dense_profile")
+    big = max([len(c) for c, n in exp.items() if n], default=0)
+    ctx.label("max_pattern_edges=%s" % ("<4" if big < 4 else "4-7" if big < 8 else "8+"))
     if any(len(e) > order for e in case["edges"]):
         ctx.label("has_larger_edge")
     if any(len(e) == 1 for e in case["edges"]):
@@ -246,7 +267,8 @@ def check_counts(case, ctx):
     obs = _by_class(_observed(h, order), order, "compute_motifs(order=%d)" % order)
     ctx.trace = {"edges": edge_lists, "expected": [[list(c), n] for c, n in sorted(exp.items())]}
     _classify(ctx, exp, order, case)
-    _compare_census(obs, exp, "compute_motifs(order=%d) on hyperedges %s" % (order, edge_lists))
+    _compare_census(obs, exp, "compute_motifs(order=%d) on hyperedges %s" % (order, edge_lists),
+                    order)
 
 
 def check_bijection(case, ctx):
@@ -365,6 +387,146 @@ def check_large(case, ctx):
 
 
 # --------------------------------------------------------------------------
+# 'observed' next to a null model
+
+
+def check_observed_with_null(case, ctx):
+    """runs_config_model=1: the null-model sample, 'config_model' and 'norm_delta' are random
+    and never looked at; 'observed' must still be the census of the hypergraph handed in."""
+    import numpy
+    from hypergraphx.motifs import compute_motifs
+    order = case["order"]
+    edge_lists = _abstract(case)
+    exp = brute_census({frozenset(e) for e in edge_lists}, order)
+    h = _build(edge_lists, case)
+    what = "compute_motifs(order=%d, runs_config_model=1)['observed']" % order
+    random.seed(case["seed"])
+    numpy.random.seed(case["seed"])
+    out = compute_motifs(h, order=order, runs_config_model=1)
+    require(isinstance(out, dict) and "observed" in out,
+            lambda: "compute_motifs(order=%d, runs_config_model=1) returned %r, expected a dict "
+                    "with key 'observed'" % (order, out), key="shape")
+    obs = _by_class(list(out["observed"]), order, what)
+    nz = _classify(ctx, exp, order, case)
+    ctx.nontrivial(nz >= 1)
+    ctx.trace = {"edges": edge_lists, "seed": case["seed"]}
+    # the exhaustive census is also what runs_config_model=0 must report (other clauses)
+    _compare_census(obs, exp, "%s on hyperedges %s (random and numpy.random seeded with %d)"
+                    % (what, edge_lists, case["seed"]))
+
+
+@st.composite
+def _null_cases(draw, tier):
+    order = draw(st.sampled_from([3, 3, 3, 3, 4]))
+    n = draw(st.sampled_from([4, 5, 6, 6, 7]))
+    labels = draw(st.lists(st.sampled_from(INT_POOL), min_size=n, max_size=n, unique=True))
+    sizes = draw(st.sampled_from([[2], [2, 2, 3], [2, 3]] if order == 3 else
+                                 [[2], [2, 2, 3], [2, 3, 3, 4], [3, 4]]))
+    m = draw(st.sampled_from([2, 3, 5, 7, 9]))
+    edges = _dedupe_sets(draw(st.lists(_edge(n, sizes), min_size=m, max_size=m)))
+    # at least two hyperedges of the sizes the census looks at
+    for c in itertools.combinations(range(n), 2):
+        if len(edges) >= 2:
+            break
+        if frozenset(c) not in {frozenset(e) for e in edges}:
+            edges.append(list(c))
+    return {"order": order, "labels": labels, "edges": edges,
+            "build": draw(st.sampled_from(["ctor", "add_edge", "add_edges"])),
+            "weighted": False, "seed": draw(st.integers(0, 2 ** 31 - 1))}
+
+
+# --------------------------------------------------------------------------
+# the labelled-pattern -> class table, exhaustively
+#
+# Every connected labelled pattern on `order` positions (12 for order 3, 1990 for
+# order 4) is realised once: pattern number i of a chunk occupies its own block of
+# `order` nodes, position j of the pattern being the j-th smallest label of the
+# block.  Hyperedges never leave their block, so no connected `order`-subset spans
+# two blocks and every block is exactly one connected subset: the census must be
+# the Counter of the blocks' classes (class = own canonical form).  A labelled
+# variant that is missing from the library's table loses one occurrence.
+
+_TABLE_CHUNKS = {3: 1, 4: 16}
+_LABELLED = {}
+
+
+def labelled_patterns(order):
+    """All connected labelled patterns on positions 0..order-1 (list of frozensets of
+    frozensets), in a fixed pseudo-random order (so that every chunk mixes classes)."""
+    if order not in _LABELLED:
+        cand = [frozenset(c) for r in range(2, order + 1)
+                for c in itertools.combinations(range(order), r)]
+        out = []
+        for mask in range(1, 1 << len(cand)):
+            pat = frozenset(cand[i] for i in range(len(cand)) if mask >> i & 1)
+            if _connects(pat, range(order)):
+                out.append(pat)
+        want = {3: 12, 4: 1990}[order]
+        if len(out) != want or len({_canon_idx(p, order) for p in out}) != {3: 6, 4: 171}[order]:
+            raise RuntimeError("oracle enumerates %d labelled patterns for order %d"
+                               % (len(out), order))
+        random.Random(order).shuffle(out)
+        _LABELLED[order] = out
+    return _LABELLED[order]
+
+
+def check_table(case, ctx):
+    order, chunk, variant = case["order"], case["chunk"], case["variant"]
+    pats = labelled_patterns(order)[chunk::_TABLE_CHUNKS[order]]
+    rnd = random.Random(case["variant"] * 101 + chunk)
+    n = order * len(pats)
+    if variant == 0:
+        # consecutive labels, block after block
+        pool = list(range(n))
+    else:
+        # non-contiguous labels (negative ones too); the blocks interleave
+        pool = rnd.sample(range(-3 * n, 6 * n), n)
+    blocks = [sorted(pool[order * b:order * b + order]) for b in range(len(pats))]
+    edge_lists, exp = [], Counter()
+    for blk, pat in zip(blocks, pats):
+        exp[_canon_idx(pat, order)] += 1
+        es = [[blk[i] for i in sorted(e)] for e in sorted(pat, key=sorted)]
+        if variant:
+            es = [rnd.sample(e, len(e)) for e in es]
+        edge_lists.extend(es)
+    if variant:
+        rnd.shuffle(edge_lists)
+    h = _build(edge_lists, {"build": ["ctor", "add_edges", "add_edge"][(chunk + variant) % 3],
+                            "weighted": variant % 4 == 3})
+    what = "compute_motifs(order=%d)" % order
+    obs = _by_class(_observed(h, order), order, what)
+    ctx.label("order=%d" % order, "chunk=%d" % chunk,
+              "labels=%s" % ("consecutive" if variant == 0 else "interleaved"))
+    ctx.nontrivial(True)
+    ctx.trace = {"blocks": [[blk, [sorted(e) for e in sorted(pat, key=sorted)]]
+                            for blk, pat in zip(blocks, pats)][:4], "n_blocks": len(blocks)}
+    for c in sorted(set(obs) | set(exp)):
+        o, e = obs.get(c), exp.get(c, 0)
+        if o != e:
+            # name a block of that class for the reader
+            wit = [(blk, [[blk[i] for i in sorted(x)] for x in sorted(pat, key=sorted)])
+                   for blk, pat in zip(blocks, pats) if _canon_idx(pat, order) == c]
+            raise Violation(
+                "%s on %d node-disjoint blocks of %d nodes, one labelled pattern each: %s "
+                "expected count %d (number of blocks of that class), reported %s; blocks of that "
+                "class, e.g. nodes %s with hyperedges %s"
+                % (what, len(blocks), order, _fmt(c), e, "nothing" if o is None else o,
+                   wit[0][0] if wit else None, wit[0][1] if wit else None), key="table")
+
+
+def _table_cases(half):
+    """finite case lists (Hypothesis enumerates a small list completely, without repeats):
+    half 0 = order 3 and chunks 0..7 of order 4, half 1 = chunks 8..15"""
+    def s(tier):
+        variants = [1] if tier == "quick" else list(range(64))
+        return st.sampled_from([{"order": order, "chunk": c, "variant": v}
+                                for v in variants for order in (3, 4)
+                                for c in range(_TABLE_CHUNKS[order])
+                                if (order == 4 and c >= 8) == bool(half)])
+    return s
+
+
+# --------------------------------------------------------------------------
 # strategies (undirected)
 
 # size profiles: biased toward dyads and triples so that overlapping connected
@@ -395,7 +557,28 @@ def _dedupe_sets(edges):
 
 
 @st.composite
+def _dense(draw, order, min_edges):
+    """n = 4 or 5 nodes, every candidate hyperedge of size 2..order present with
+    probability 1/2 (patterns with many hyperedges, which the size profiles hardly reach)."""
+    n = draw(st.sampled_from([4, 5, 5]))
+    labels = draw(st.lists(st.sampled_from(INT_POOL), min_size=n, max_size=n, unique=True))
+    cand = [list(c) for r in range(2, order + 1) for c in itertools.combinations(range(n), r)]
+    bits = draw(st.lists(st.booleans(), min_size=len(cand), max_size=len(cand)))
+    edges = [c for c, b in zip(cand, bits) if b]
+    if len(edges) < min_edges:
+        edges = cand[:min_edges]
+    edges = list(draw(st.permutations(edges)))
+    return {
+        "order": order, "labels": labels, "edges": edges, "profile": "dense",
+        "build": draw(st.sampled_from(["ctor", "ctor", "add_edge", "add_edges"])),
+        "weighted": draw(st.sampled_from([False, False, False, True])),
+    }
+
+
+@st.composite
 def _hypergraphs(draw, order, tier, max_size=6, min_edges=1):
+    if draw(st.integers(0, 5)) == 0:
+        return draw(_dense(order, min_edges))
     n = draw(st.sampled_from([4, 5, 5, 6, 6, 6, 7, 8] if order == 3 else [4, 5, 5, 5, 6, 6, 7, 8]))
     labels = draw(st.lists(st.sampled_from(INT_POOL), min_size=n, max_size=n, unique=True))
     sizes = [s for s in draw(st.sampled_from(_PROFILES[order])) if s <= max_size]
@@ -415,6 +598,8 @@ def _counts_strategy(order):
     @st.composite
     def s(draw, tier):
         case = draw(_hypergraphs(order, tier))
+        if draw(st.integers(0, 24)) == 17:
+            case["edges"] = []  # all-zero census
         n = len(case["labels"])
         case["isolated"] = draw(st.lists(st.integers(0, n - 1), max_size=1))
         return case
@@ -490,17 +675,31 @@ def _dbrute_classes(recs, order):
     return out
 
 
-def _dbuild(recs, how):
+@with_history
+def _dbuild(recs, how, weighted=False, isolated=()):
+    """A DirectedHypergraph holding exactly these hyperedges (and the given extra nodes, which
+    are in no hyperedge), through the constructor or add_edge/add_edges; weights (when
+    weighted) are irrelevant to the census."""
     from hypergraphx import DirectedHypergraph
     es = [(tuple(s), tuple(t)) for s, t in recs]
+    ws = [[0.5, 1, 2.5, 3, 7][(i * 3 + len(e[0])) % 5] for i, e in enumerate(es)]
     if how == "ctor":
-        return DirectedHypergraph(edge_list=es)
-    h = DirectedHypergraph()
-    if how == "add_edges":
-        h.add_edges(es)
+        h = DirectedHypergraph(edge_list=es, weighted=weighted, weights=ws if weighted else None)
     else:
-        for e in es:
-            h.add_edge(e)
+        h = DirectedHypergraph(weighted=weighted)
+        if how == "add_edges":
+            if weighted:
+                h.add_edges(es, weights=ws)
+            else:
+                h.add_edges(es)
+        else:
+            for e, w in zip(es, ws):
+                if weighted:
+                    h.add_edge(e, weight=w)
+                else:
+                    h.add_edge(e)
+    if isolated:
+        h.add_nodes(list(isolated))
     return h
 
 
@@ -532,11 +731,16 @@ def check_directed(case, ctx):
     labels = case["labels"]
     recs = [[[labels[i] for i in s], [labels[i] for i in t]] for s, t in case["edges"]]
     what = "compute_directed_motifs(order=%d)" % order
-    base = _dobserved(_dbuild(recs, case["build"]), order, what + " on %s" % recs)
+    weighted = bool(case.get("weighted"))
+    iso = [labels[i] for i in case.get("isolated", [])]
+    base = _dobserved(_dbuild(recs, case["build"], weighted, iso), order, what + " on %s" % recs)
     n_large = len([1 for s, t in recs if len(s) + len(t) > order])
     ctx.label("order=%d" % order, "patterns=%s" % min(len(base), 3),
               "n_larger=%s" % min(n_large, 2),
-              "max_count=%s" % min(max(base.values(), default=0), 3))
+              "max_count=%s" % min(max(base.values(), default=0), 3),
+              "weighted" if weighted else "unweighted")
+    if set(iso) - {v for s, t in recs for v in s + t}:
+        ctx.label("has_isolated_node")
 
     # every reported pattern is its class's canonical representative
     for pat in base:
@@ -570,7 +774,8 @@ def check_directed(case, ctx):
     rnd.shuffle(image)
     pi = dict(zip(labels, image))
     rel = [[[pi[v] for v in s], [pi[v] for v in t]] for s, t in recs]
-    got = _dobserved(_dbuild(rel, case["build"]), order, what + " on %s" % rel)
+    got = _dobserved(_dbuild(rel, case["build"], weighted, [pi[v] for v in iso]), order,
+                     what + " on %s" % rel)
     require(got == base,
             lambda: "%s: census %s on hyperedges %s but %s after the relabelling %s (hyperedges %s)"
                     % (what, sorted(base.items()), recs, sorted(got.items()), sorted(pi.items()), rel),
@@ -581,7 +786,9 @@ def check_directed(case, ctx):
     reordered = [[rnd.sample(s, len(s)), rnd.sample(t, len(t))] for s, t in recs]
     rnd.shuffle(reordered)
     how2 = {"ctor": "add_edge", "add_edge": "add_edges", "add_edges": "ctor"}[case["build"]]
-    got = _dobserved(_dbuild(reordered, how2), order, what + " on %s" % reordered)
+    # (the other weightedness too: weights are no part of the isomorphism type)
+    got = _dobserved(_dbuild(reordered, how2, not weighted, iso[::-1]), order,
+                     what + " on %s" % reordered)
     require(got == base,
             lambda: "%s: census %s when the hyperedges are inserted as %s but %s when inserted as %s"
                     % (what, sorted(base.items()), recs, sorted(got.items()), reordered),
@@ -590,7 +797,8 @@ def check_directed(case, ctx):
     # hyperedges larger than the order are ignored
     small = [r for r in recs if len(r[0]) + len(r[1]) <= order]
     if n_large:
-        got = _dobserved(_dbuild(small, case["build"]), order, what + " on %s" % small)
+        got = _dobserved(_dbuild(small, case["build"], weighted, iso), order,
+                         what + " on %s" % small)
         require(got == base,
                 lambda: "%s: census %s on hyperedges %s but %s without the hyperedges larger than "
                         "the order (%s), which must be ignored"
@@ -613,7 +821,9 @@ def _dedge(draw, n, sizes):
 def _directed_cases(draw, tier):
     order = draw(st.sampled_from([3, 4]))
     n = max(order, draw(st.sampled_from([3, 4, 5, 5, 6, 6, 7])))
-    labels = draw(st.lists(st.sampled_from(INT_POOL), min_size=n, max_size=n, unique=True))
+    n_iso = draw(st.sampled_from([0, 0, 1, 2]))  # labels n.. are in no hyperedge
+    labels = draw(st.lists(st.sampled_from(INT_POOL), min_size=n + n_iso, max_size=n + n_iso,
+                           unique=True))
     sizes = draw(st.sampled_from(
         [[2, 3], [2, 2, 3, 3, 4], [2, 3, 3, 4, 5, 6], [3, 3, 4, 5]] if order == 3 else
         [[2, 3, 4], [3, 4, 5], [2, 3, 3, 4, 4, 5, 6], [2, 3, 4, 4, 5]]))
@@ -626,6 +836,8 @@ def _directed_cases(draw, tier):
             edges.append(e)
     return {"order": order, "labels": labels, "edges": edges,
             "build": draw(st.sampled_from(["ctor", "add_edge", "add_edges"])),
+            "weighted": draw(st.sampled_from([False, False, True])),
+            "isolated": list(range(n, n + n_iso)),
             "perm_seed": draw(st.integers(0, 2 ** 20)),
             "ins_seed": draw(st.integers(0, 2 ** 20))}
 
@@ -637,6 +849,14 @@ CLAUSES = [
            shards_quick=2, rule=_RULE),
     Clause("order4_counts", _counts_strategy(4), check_counts, quick=20, thorough=250,
            shards_quick=4, rule=_RULE),
+    Clause("order34_table_a", _table_cases(0), check_table, quick=12, thorough=40,
+           rule="every case (the case list is finite: the quick tier enumerates all 9 + 8 chunks of "
+                "the two halves, i.e. all 12 + 1990 connected labelled patterns, once; thorough "
+                "samples chunk x variant)"),
+    Clause("order34_table_b", _table_cases(1), check_table, quick=12, thorough=40,
+           rule="every case (second half of the chunks of order 4)"),
+    Clause("observed_with_null_model", _null_cases, check_observed_with_null, quick=24,
+           thorough=60, rule="at least one class has a non-zero count in the exhaustive census"),
     Clause("classes_bijection", _bijection_cases, check_bijection, quick=24, thorough=30,
            rule="every case (the class table is regenerated by every call; hypergraphs with 0..12 "
                 "hyperedges, both orders)"),
